@@ -12,7 +12,7 @@ import (
 	"verif/checker/ssax"
 )
 
-func init() { Registry["C19"] = Spec{Run: runC19} }
+func init() { Registry["C19"] = Spec{Run: runC19, Packages: []string{"imports"}} }
 
 func isTagMap(t types.Type) bool {
 	m, ok := t.Underlying().(*types.Map)
